@@ -258,6 +258,16 @@ def resolver(crates=("ruma-events",)):
                         else:
                             f_serde[k] = v
             f = type("F", (), {"serde": f_serde, "aliases": f_aliases, "ty": f.ty, "name": f.name})()
+            if f.serde.get("flatten") is True and set(f.serde) == {"flatten"} and not f.aliases:
+                # #[serde(flatten)] of a plain struct: its members are read from and written into the
+                # enclosing object at this position, exactly as if they were declared here
+                t = of_type(f.ty, it)
+                if t[0] != "struct":
+                    raise Custom("%s.%s: serde(flatten) of a non-struct" % (it.name, f.name))
+                if any(x["ty"][0] == "const" for x in t[2]):
+                    raise Custom("%s.%s: serde(flatten) of a tagged struct" % (it.name, f.name))
+                fields.extend(dict(x, rust=f.name + "." + x["rust"]) for x in t[2])
+                continue
             for k in f.serde:
                 if k not in ("rename", "default", "skip_serializing_if"):
                     raise Custom("%s.%s: serde(%s)" % (it.name, f.name, k))
@@ -323,9 +333,17 @@ def resolver(crates=("ruma-events",)):
             raise Custom("%s: tuple struct" % it.name)
         if it.kind != "struct":
             raise Custom("%s: %s with derived serde (not modelled)" % (it.name, it.kind))
+        tag = None
+        if set(bad) <= {"tag", "rename"} and "tag" in bad:
+            # #[serde(tag = "t", rename = "n")] on a struct: the member t: "n" is written first; on
+            # input the member is not looked at
+            tag = {"rust": "#tag", "name": it.serde["tag"], "aliases": [], "default": ("const", it.serde.get("rename", it.name)),
+                   "skip": ("never",), "ty": ("const", it.serde.get("rename", it.name))}
+            bad = []
         if bad:
             raise Custom("%s: container attribute serde(%s)" % (it.name, bad[0]))
-        return ("struct", it.name, fields_of(it, it.fields))
+        fl = fields_of(it, it.fields)
+        return ("struct", it.name, ([tag] if tag else []) + fl)
 
     return of_item, of_type, fields_of, feats, per_crate
 
@@ -397,6 +415,8 @@ def coq_ty(t, defs, order):
         return "(TInt (%d)%%Z (%d)%%Z)" % (t[1], t[2])
     if k == "any":
         return "TAny"
+    if k == "const":
+        return "(TConst %s)" % coq_json(t[1])
     if k == "objany":
         return "TObjAny"
     if k == "opt":
